@@ -118,6 +118,17 @@ class Body:
     def is_coroutine(self):
         return self.coroutine_kind is not None
 
+    def layout_variants_at(self, term):
+        """Coroutine-layout variants describing the suspension point of this yield / poll terminator: by its own span
+        (also for suspension points of inlined async helpers, whose layouts were composed into this body's), else by the
+        span of the caller's await the inlined code stands for."""
+        if not self.layout:
+            return []
+        vs = [v for v in self.layout["variants"] if v["span"] == term["span"]]
+        if not vs and "layout_span" in term:
+            vs = [v for v in self.layout["variants"] if v["span"] == term["layout_span"]]
+        return vs
+
     def local_ty(self, l):
         return self.f.ty(self.locals[l]["ty"])
 
